@@ -25,6 +25,7 @@ Inductive exc :=
 | EStopIter       (* StopIteration out of next(...) *)
 | EPrim           (* a primitive refused (cryptography raised: bad key size, bad PKCS#1 padding, InvalidUnwrap, ...) *)
 | ENotEncrypted   (* PGPKey.decrypt on a message without encrypted data: warning, the INPUT object is returned *)
+| EAttr           (* AttributeError (only in the pre-repair variant of PGPKey.decrypt) *)
 | EUnmodelled     (* packet kinds outside this model (signatures, literal data, GNU S2K extension, ...) *)
 | EFuel.          (* parser fuel exhausted (excluded by the theorems) *)
 
@@ -58,10 +59,13 @@ Definition block_octets (a : Z) : nat :=
   match block_bits a with Some b => Z.to_nat (b / 8) | None => 0%nat end.
 
 (* Python slices with a possibly negative bound: b[:n] and b[n:] *)
+(* (bounds are clamped to the list length BEFORE the conversion to nat: same result, and the extracted code never
+   builds a unary number larger than the buffer) *)
+Definition clampz (n : Z) (l : bytes) : nat := Z.to_nat (Z.min n (Z.of_nat (length l))).
 Definition py_take (n : Z) (l : bytes) : bytes :=
-  if n <? 0 then firstn (length l - Z.to_nat (- n)) l else firstn (Z.to_nat n) l.
+  if n <? 0 then firstn (length l - clampz (- n) l) l else firstn (clampz n l) l.
 Definition py_drop (n : Z) (l : bytes) : bytes :=
-  if n <? 0 then skipn (length l - Z.to_nat (- n)) l else skipn (Z.to_nat n) l.
+  if n <? 0 then skipn (length l - clampz (- n) l) l else skipn (clampz n l) l.
 
 (* ---------- key objects as far as encryption uses them ---------- *)
 Record pkey := {
@@ -319,6 +323,18 @@ Section Prims.
     | Some (PK _ a c) => bind (pkesk_decrypt_sk k a c) (fun ak => seipd_decrypt (fst ak) (snd ak) ct)
     | _ => Raise EStopIter
     end.
+  (* PGPKey.decrypt BEFORE the repair of defect F10 (kept for the regression theorem only): the generator read
+     pk.pkalg of every session-key packet, and an SKESessionKeyV4 has no such attribute *)
+  Fixpoint find_pk_prefix (k : pkey) (es : list esk) : res (Z * pkct) :=
+    match es with
+    | [] => Raise EStopIter
+    | SK _ _ _ :: _ => Raise EAttr
+    | PK id a c :: r => if (a =? k_alg k) && beqb id (k_id k) then Ok (a, c) else find_pk_prefix k r
+    end.
+  Definition key_decrypt_leaf_prefix (k : pkey) (es : list esk) (ct : bytes) : res bytes :=
+    bind (find_pk_prefix k es) (fun ac =>
+    bind (pkesk_decrypt_sk k (fst ac) (snd ac)) (fun ak => seipd_decrypt (fst ak) (snd ak) ct)).
+
   Definition key_decrypt (k : fullkey) (m : emsg) : res bytes :=
     match snd m with
     | None => Raise ENotEncrypted
@@ -449,6 +465,14 @@ Definition skesk_parse (h : pheader) (b : bytes) : res (esk * bytes) :=
     end
   end.
 
+(* new-format header whose first length octet opens a partial body length (224..254): C09's territory; a mutated
+   message that reaches one is outside this model (the code mostly dies with IndexError) *)
+Definition partial_first (b : bytes) : bool :=
+  match b with
+  | t :: l :: _ => negb (Z.land t 64 =? 0) && (224 <=? l) && (l <? 255)
+  | _ => false
+  end.
+
 (* PGPMessage.parse loop over Packet(data) and __or__ *)
 Fixpoint msg_parse_loop (fuel : nat) (b : bytes) (es : list esk) (ct : option bytes) : res emsg :=
   match b with
@@ -457,6 +481,7 @@ Fixpoint msg_parse_loop (fuel : nat) (b : bytes) (es : list esk) (ct : option by
     match fuel with
     | O => Raise EFuel
     | S f =>
+      if partial_first b then Raise EUnmodelled else
       match header_parse b with
       | None => Raise EPGP
       | Some (h, r) =>
